@@ -85,6 +85,14 @@ func init() {
 		d := sc.st.arrIn(sc.cur, dom, "(Array Int (Array Int Bool))")
 		return Val{T: tUint64, C: []string{ite(eq(m.C[0], "0"), "0", fmt.Sprintf("(xorfold %s)", sel(d, m.C[0])))}}
 	}
+	specFuncs["ghost"] = func(sc *SpecCtx, x *SExpr) Val { // ghost(name, i): the ghost array `name` (updated by "loop n ghost") at index i
+		if x.Args[0].Op != "ident" {
+			sc.fail("ghost: first argument is the name of a ghost array")
+		}
+		i := sc.eval(x.Args[1])
+		arr := sc.st.arrIn(sc.cur, "G|u|"+x.Args[0].Name, "(Array Int Int)")
+		return Val{T: tInt, C: []string{sel(arr, i.C[0])}}
+	}
 	specFuncs["keysKept"] = func(sc *SpecCtx, x *SExpr) Val { // keysKept(m): map m has exactly the keys and values it had in the old state
 		m := sc.eval(x.Args[0])
 		mt, ok := m.T.Underlying().(*types.Map)
